@@ -223,6 +223,27 @@ func runC08(c *fw.Ctx) {
 		}
 	}
 
+	// (a3) hand-written import shapes that real files contain rarely
+	for k, src := range importZoo() {
+		i := len(k) // cheap deterministic spread over shards
+		if !c.Mine(i) {
+			continue
+		}
+		b := []byte(src)
+		if !corpus.Canonical(b) {
+			c.Count("zoo_entries_not_canonical", 1)
+			continue
+		}
+		names := map[string]string{"fmt": "fmt", "os": "os", "image/png": "png", "image/jpeg": "jpeg", "embed": "embed", "net/http/pprof": "pprof",
+			"math/rand": "rand", "crypto/rand": "rand", "x.com/y/log": "log", "log": "log", "gopkg.in/yaml.v2": "yaml", "strings": "strings", "unsafe": "unsafe"}
+		dec := func(s []byte) (*dst.File, error) {
+			d := decorator.NewDecoratorWithImports(token.NewFileSet(), "example.com/self", goast.WithResolver(simple.New(names)))
+			return d.Parse(s)
+		}
+		c08Run(c, "zoo:"+k, "goast+simple", b, func() (*dst.File, error) { return dec(b) }, simple.New(names), dec)
+		c08Run(c, "zoo:"+k, "goast+guess.WithMap", b, func() (*dst.File, error) { return dec(b) }, guess.WithMap(names), dec)
+	}
+
 	// (b) gotypes over type-checked std packages
 	dirs := c08Dirs(c)
 	for i, dir := range dirs {
@@ -354,4 +375,18 @@ func dotEdits(r interface{ Intn(int) int }, src []byte, names map[string]string,
 		}
 	}
 	return out
+}
+
+// importZoo: small canonical files with unusual import sections.
+func importZoo() map[string]string {
+	return map[string]string{
+		"two-blank": "package p\n\nimport (\n\t\"fmt\"\n\t_ \"image/jpeg\"\n\t_ \"image/png\"\n)\n\nvar _ = fmt.Sprint\n",
+		"three-blank-two-blocks": "package p\n\nimport (\n\t_ \"embed\"\n\t_ \"image/png\"\n)\n\nimport _ \"net/http/pprof\"\n\nvar x = 1\n",
+		"aliases": "package p\n\nimport (\n\tcrand \"crypto/rand\"\n\tf \"fmt\"\n\t\"math/rand\"\n)\n\nvar _ = f.Sprint(rand.Int(), crand.Reader)\n",
+		"own-name-alias": "package p\n\nimport fmt \"fmt\"\n\nvar _ = fmt.Sprint\n",
+		"groups-and-comments": "package p\n\nimport (\n\t\"fmt\" // std\n\t\"os\"\n\n\t// third party\n\t\"gopkg.in/yaml.v2\"\n\txlog \"x.com/y/log\"\n)\n\nvar _ = fmt.Sprint(os.Args, yaml.Marshal, xlog.Print)\n",
+		"cgo": "package p\n\n/*\n#include <stdio.h>\n*/\nimport \"C\"\n\nimport (\n\t\"fmt\"\n\t\"unsafe\"\n)\n\nvar _ = fmt.Sprint(C.int(1), unsafe.Sizeof(0))\n",
+		"single-lines": "package p\n\nimport \"fmt\"\nimport \"os\"\n\nvar _ = fmt.Sprint(os.Args)\n",
+		"blank-and-used": "package p\n\nimport (\n\t\"fmt\"\n\t_ \"image/png\"\n\t\"strings\"\n)\n\nfunc f() string {\n\treturn strings.ToUpper(fmt.\n\t\tSprint(1))\n}\n",
+	}
 }
